@@ -27,7 +27,7 @@ def gen_siblings(rng):
 def gen_scenarios(rng, n):
     out = []
     for i in range(n):
-        if i % 6 == 0 or i % 6 == 3:
+        if i % 6 == 0:
             # a search resumed in a fresh interpreter must go on exactly like one reloaded in the same process: small discrete
             # spaces, so that samples drawn after the reload collide with configurations tried before it
             cfg = lc.gen_config(rng, kinds=["random", "random", "hyperband", "bayes", "grid"])
@@ -36,6 +36,8 @@ def gen_scenarios(rng, n):
                 cfg["max_trials"] = rng.choice([4, 5, 6]); cfg["nsteps"] = 24
             if cfg["kind"] == "hyperband":
                 cfg["max_epochs"] = rng.choice([3, 4, 9]); cfg["nsteps"] = rng.randint(25, 60)
+            if rng.random() < 0.3:
+                cfg["shape"] = "dupchoice"
             out.append(dict(type="resume", cfg=cfg, grow=rng.random() < 0.3, split=rng.randint(3, max(4, cfg["nsteps"] - 4))))
         elif i % 6 == 1:
             out.append(dict(type="hb_grow", direction=rng.choice(["min", "max"]), max_epochs=rng.choice([4, 8, 9]), factor=rng.choice([2, 3]), seed=rng.randint(1, 10 ** 6),
@@ -57,6 +59,8 @@ def gen_scenarios(rng, n):
             if cfg["kind"] == "hyperband":
                 cfg["max_epochs"] = rng.choice([3, 4, 9]); cfg["nsteps"] = rng.randint(25, 60)
                 cfg["W"] = rng.randint(2, 4)
+            if rng.random() < 0.3:
+                cfg["shape"] = "dupchoice"
             out.append(dict(type="history", cfg=cfg, grow=rng.random() < 0.6))
     return out
 
@@ -134,9 +138,9 @@ def run(ctx):
             failures.append(Failure("violation", sig, "two replays of the same %s differ at event %d: %r vs %r" % (what, d[0], d[1], d[2]),
                                     {"scenario": sc, "event": d[0], "run_a": d[1], "run_b": d[2]}))
     return dict(evaluations=n, distinct_nontrivial=distinct, traces_validated=n - stats["differing"],
-                rule="scenarios = (2/3) seeded worker-pool histories on the real random, grid, Hyperband and Bayesian oracles, 60% of them declaring further (conditional) "
-                     "hyperparameters inside trials, (1/3) tuner constructions over generated declaration trees followed by four trials; each scenario is replayed in "
-                     "three fresh interpreters (PYTHONHASHSEED 1 / 7919 / 1, different global random and numpy seeds); one third of the histories are additionally cut at a random step: "
+                rule="scenarios = (1/2) seeded worker-pool histories on the real random, grid, Hyperband and Bayesian oracles (30% over a space whose string Choices list values "
+                     "more than once), 30-60% of them declaring further (conditional) hyperparameters inside trials, (1/6) Hyperband searches with growth and tied scores, (1/3) tuner constructions over generated declaration trees followed by four trials; each scenario is replayed in "
+                     "three fresh interpreters (PYTHONHASHSEED 1 / 7919 / 1, different global random and numpy seeds); half of the histories are additionally cut at a random step: "
                      "reloaded into a fresh oracle of the same process vs. first part in one interpreter and the rest in another (PYTHONHASHSEED 4242 / 90001) on the saved project; non-trivial = scenario issuing >= 3 trials",
                 samples=[dict(scenario=scenarios[0], issued=r1[0][:6]), dict(scenario=scenarios[2], issued=r1[2][:4])], failures=failures, stats=stats)
 
